@@ -447,3 +447,25 @@ func flattenInputMap(raw []byte, mapDir string) ([]flatSeg, error) {
 	}
 	return out, nil
 }
+
+// inputMapUnsorted reports whether some line of the (possibly sectioned) map lists its segments out of order.
+func inputMapUnsorted(raw []byte) bool {
+	var probe struct {
+		Sections []struct {
+			Map json.RawMessage `json:"map"`
+		} `json:"sections"`
+	}
+	if json.Unmarshal(raw, &probe) != nil {
+		return false
+	}
+	raws := [][]byte{raw}
+	for _, s := range probe.Sections {
+		raws = append(raws, s.Map)
+	}
+	for _, r := range raws {
+		if _, err := smref.Parse(r); err != nil && strings.Contains(err.Error(), "not sorted") {
+			return true
+		}
+	}
+	return false
+}
